@@ -81,6 +81,10 @@ package rewrite
 //@   requires r != nil && r.pkg != nil
 //@   at `r.GetPrevDecl(structname, methodname)` requires arg0 == structname && arg1 == methodname
 //@   ensures calls(GetPrevDecl) == 1
+// "keeps its doc comment verbatim": the comment must be taken from the source text like the body is.
+// ast.CommentGroup.Text() is not the source: it drops directive lines (//nolint:..., //go:...), strips markers
+// and normalises blank lines (known finding D22)
+//@   callsite Text: requires false
 
 // GetPrevDecl: the declaration returned (and marked as carried over) is a method with the requested name whose
 // receiver base type is the requested struct; nothing is marked when nothing is returned.
